@@ -25,7 +25,7 @@ class Abstract:
         self.live = 0
         self.slot_of = {}    # oid -> slot index reported by the implementation at allocation
         self.classes = set()
-        self.collected = False
+        self.tainted = False   # a payload access went through a stale handle: nothing further is specified
 
     def reach(self):
         seen = set()
@@ -71,9 +71,28 @@ class Abstract:
         for k in used:
             if self.h(k) is None:
                 return "none"
-        for k in used:
-            if self.objs[self.h(k)]["dead"]:
-                self.classes.add(1)
+        stale = [k for k in used if self.objs[self.h(k)]["dead"]]
+        if stale:
+            # known-finding class 1. In the specification a handle to a collected object
+            # denotes that (gone) object and nothing else: counts and roots of other
+            # objects are unaffected by cloning, dropping, guarding or unguarding it.
+            self.classes.add(1)
+            if op == "D":
+                self.handles[a] = None
+                return "unit"
+            if op == "C":
+                self.handles.append(self.h(a))
+                return "h %d ?" % (len(self.handles) - 1)
+            if op == "GC":
+                return "unit"
+            if op == "GM":
+                self.handles[b] = None
+                return "unit"
+            if op == "UG":
+                return "b 0"
+            if self.alive:
+                self.tainted = True
+                return "?"
         if op in ("SV", "L", "UL", "CR", "R") and not self.alive:
             self.classes.add(2)
             return "fault"
@@ -408,6 +427,15 @@ def judge(chk, histories, ri, rm, rg, stats, stream):
                 stats["ops_in_known_class"] += 1
                 if clean_before:
                     stats["histories_entering_known_class"] += 1
+                # inside a known class the model explains the implementation; where it does
+                # not, and the specification still says something, that is a new violation
+                if li != lm and not ab.tainted and "?" not in exp and exp not in ("s", "fault"):
+                    om_ = split_obs(lm)[0]
+                    if oi != exp and not (exp.startswith("h ") and oi.startswith("h ")):
+                        spec = (k, "inside known class %s the implementation (%r) follows neither the model (%r) nor the "
+                                   "specification (%r)" % (sorted(ab.classes), oi, om_, exp), lm)
+                        pos += len(ops) - (k + 1)
+                        break
                 continue
             # specified observations on the prefix without stale handles / dangling derefs
             bad = None
